@@ -120,3 +120,11 @@ let () =
 let () =
   register2 "mixdt" (fun a impl ->
       { model = "-"; spec = "err"; cls = if impl = "err" then "" else Printf.sprintf "mixdt.%s:%s:%s" a.(0) a.(3) (if impl = "panic" then "panic" else "accepted") })
+
+(* SPEC-only kinds whose observation is the harness's own comparison (xkinds.go): SPEC = "same" *)
+let () =
+  List.iter (fun k ->
+      register2 k (fun a impl ->
+          let sym = (match String.index_opt impl ':' with Some i -> String.sub impl 0 i | None -> impl) in
+          { model = "-"; spec = "same"; cls = if impl = "same" then "" else Printf.sprintf "%s:%s:%s" k a.(0) sym }))
+    ["xtomat"; "xeng"; "rrepeat"; "slinto"]
